@@ -21,7 +21,7 @@ Where the full statement is false of the code as it is, it is kept as a `def …
 Prop`, with the strongest `_partial` theorem (explicit side conditions) and a
 `_counterexample` from a concrete witness.  Helper lemmas live in
 CtyModel/Lemmas/{CoversBasic,CoversWeaken,OpsLogic,OpsCompare,OpsArith,OpsColl,
-OpsEquals,OpsIncludes,OpsAddSub,OpsDerived,OpsSets,OpsMul,OpsKnown}.lean.
+OpsEquals,OpsIncludes,OpsAddSub,OpsDerived,OpsSets,OpsMul,OpsKnown,d01Ext,d01Round,d01Arith,d01Range,d01Mul}.lean.
 -/
 import CtyModel.Lemmas.OpsEquals
 import CtyModel.Lemmas.OpsIncludes
@@ -29,6 +29,7 @@ import CtyModel.Lemmas.OpsAddSub
 import CtyModel.Lemmas.OpsDerived
 import CtyModel.Lemmas.OpsSets
 import CtyModel.Lemmas.OpsMul
+import CtyModel.Lemmas.d01Mul
 namespace CtyModel
 namespace C01
 open Value
@@ -175,6 +176,26 @@ theorem sound_greaterThan : Sound₂ Value.greaterThan := sound_binMarks greater
 /-! ## Soundness: Negate, Absolute, Divide, Modulo -/
 theorem sound_neg : Sound₁ Value.neg := sound_unMarks negU_sound.toW
 theorem sound_abs : Sound₁ Value.abs := sound_unMarks absU_sound.toW
+
+/-- What the code returns for an unknown operand, as the soundness proofs use it:
+`Negate` of any unknown number (whatever its refinement) and of `DynamicVal` is the
+UNREFINED not-null unknown number — the operand's range is dropped, not mirrored;
+`Absolute` answers "not null, ≥ 0".  (A mirrored range `[-hi, -lo]` would have to
+swap the inclusiveness flags together with the bounds; the seeded change
+C01-negate-range-swapped-inclusivity breaks this theorem's correspondence.) -/
+theorem neg_abs_of_unknown (t : Ty) (r : Rfn) (ht : t = .number ∨ t = .dyn) :
+    Value.neg ⟨t, .unk r⟩ = .ok unkNumNotNull ∧ Value.abs ⟨t, .unk r⟩ = .ok absUnk := by
+  rcases ht with rfl | rfl <;> exact ⟨rfl, rfl⟩
+
+/-- … and that answer admits the negation of everything the operand admits, in
+particular a number sitting on an inclusive end of a half-open range -/
+theorem neg_range_example :
+    CoversX ⟨.number, .unk (.num .u (some ⟨Num.ofInt 0, false⟩) (some ⟨Num.ofInt 10, true⟩))⟩ (intVal 10) = true ∧
+    Value.neg ⟨.number, .unk (.num .u (some ⟨Num.ofInt 0, false⟩) (some ⟨Num.ofInt 10, true⟩))⟩ = .ok unkNumNotNull ∧
+    Value.neg (intVal 10) = .ok (intVal (-10)) ∧ Covers unkNumNotNull (intVal (-10)) = true ∧
+    -- the mirrored range with the flags NOT swapped would exclude it
+    Covers ⟨.number, .unk (.num .f (some ⟨Num.ofInt (-10), false⟩) (some ⟨Num.ofInt 0, true⟩))⟩ (intVal (-10)) = false :=
+  ⟨by decide, by rfl, by rfl, by decide, by decide⟩
 
 theorem sound_div : Sound₂ Value.div :=
   sound_binMarks (fun o₁ o₂ w₁ w₂ r hk₁ hk₂ a b c d _ _ _ _ hc₁ hc₂ ho =>
@@ -407,18 +428,47 @@ theorem soundAdd_false : ¬ SoundAdd := by
   rw [c4] at h2
   cases h2
 
-/-- Add is sound whenever no corner rounds: `CornerExactAdd` (decidable) says that
-`l₁+l₂`, `h₁+h₂` and `x+y` are exact (the exact sum fits the larger operand
-precision) and that a result range cty collapses to a known number is one value. -/
+/-- The mirror image of `add_mixed_precision_counterexample` (same root cause, the
+recorded finding range-bound-rounded-at-lower-precision): here the BOUND is the finer
+number.  unknown ≥ 1.0000000000000001 (a 512-bit bound, 1+2^-60) standing for the
+float64 1+2^-52, plus the float64 1: the concrete sum 2+2^-52 is a tie at 53 bits and
+rounds to 2; the corner 1+2^-60+1 is exact at 512 bits, so the weakened result is
+bounded BELOW by 2+2^-60 > 2.  Directed rounding of the corners would not help. -/
+theorem add_bound_finer_than_value_counterexample :
+    Value.add ⟨.number, .n (.fin false 4503599627370497 (-52) 53)⟩ ⟨.number, .n (.fin false 1 0 53)⟩
+      = .ok ⟨.number, .n (.fin false 1 1 53)⟩ ∧
+    Value.add ⟨.number, .unk (.num .u (some ⟨.fin false 1152921504606846977 (-60) 512, true⟩) none)⟩ ⟨.number, .n (.fin false 1 0 53)⟩
+      = .ok ⟨.number, .unk (.num .f (some ⟨.fin false 2305843009213693953 (-60) 512, true⟩) none)⟩ ∧
+    CoversX ⟨.number, .unk (.num .u (some ⟨.fin false 1152921504606846977 (-60) 512, true⟩) none)⟩
+      ⟨.number, .n (.fin false 4503599627370497 (-52) 53)⟩ = true ∧
+    Covers ⟨.number, .unk (.num .f (some ⟨.fin false 2305843009213693953 (-60) 512, true⟩) none)⟩
+      ⟨.number, .n (.fin false 1 1 53)⟩ = false ∧
+    CornerSafeAdd ⟨.number, .unk (.num .u (some ⟨.fin false 1152921504606846977 (-60) 512, true⟩) none)⟩ ⟨.number, .n (.fin false 1 0 53)⟩
+      ⟨.number, .n (.fin false 4503599627370497 (-52) 53)⟩ ⟨.number, .n (.fin false 1 0 53)⟩ = false :=
+  ⟨by rfl, by rfl, by decide, by decide, by decide⟩
+
+/-- Add is sound whenever the rounding of a corner cannot overtake the rounding of
+the concrete sum: `CornerSafeAdd` (decidable).  `big.Float.Add` rounds to the larger
+precision of its two operands; rounding to nearest is monotone, so the lower corner
+`l₁+l₂` stays below `x+y` (and `x+y` below `h₁+h₂`) when BOTH SUMS ARE ROUNDED AT THE
+SAME PRECISION — whether or not they are rounded (every number parsed from text or
+JSON carries 512 bits, so this is the ordinary case) — or when one of the two exact
+sums is representable at both precisions, or neither sum is rounded (the former side
+condition `CornerExactAdd`: `cornerSafeAdd_of_exact`).  Bounds may be infinite.
+Outside `CornerSafeAdd` the statement is false both ways:
+`add_mixed_precision_counterexample` (bound coarser than the value),
+`add_bound_finer_than_value_counterexample` (bound finer than the value).
+Last conjunct of the side condition: a result range that cty collapses to a known
+number is one value. -/
 theorem sound_add_partial (o₁ o₂ w₁ w₂ r : Value) (hk₁ : o₁.whollyKnown = true) (hk₂ : o₂.whollyKnown = true)
     (hf₁ : o₁.wfc = true) (hf₂ : o₂.wfc = true) (hg₁ : w₁.wfc = true) (hg₂ : w₂.wfc = true)
     (hc₁ : CoversX w₁ o₁ = true) (hc₂ : CoversX w₂ o₂ = true)
-    (hside : CornerExactAdd w₁.unmark w₂.unmark o₁.unmark o₂.unmark = true)
+    (hside : CornerSafeAdd w₁.unmark w₂.unmark o₁.unmark o₂.unmark = true)
     (ho : Value.add o₁ o₂ = .ok r) : ∃ r', Value.add w₁ w₂ = .ok r' ∧ Covers r' r = true := by
   unfold Value.add at ho ⊢
   rw [binMarks_eq] at ho ⊢
   obtain ⟨r0, h0, rfl⟩ := res_map_ok ho
-  obtain ⟨r', h1, h2⟩ := addU_sound_partial o₁.unmark o₂.unmark w₁.unmark w₂.unmark r0
+  obtain ⟨r', h1, h2⟩ := addU_sound_safe o₁.unmark o₂.unmark w₁.unmark w₂.unmark r0
     (by rw [whollyKnown_unmark]; exact hk₁) (by rw [whollyKnown_unmark]; exact hk₂)
     (flat_unmark (wfc_flat hf₁)) (flat_unmark (wfc_flat hf₂)) (flat_unmark (wfc_flat hg₁)) (flat_unmark (wfc_flat hg₂))
     (by rw [coversX_unmark_left, coversX_unmark_right]; exact hc₁)
@@ -431,12 +481,12 @@ theorem sound_add_partial (o₁ o₂ w₁ w₂ r : Value) (hk₁ : o₁.whollyKn
 theorem sound_sub_partial (o₁ o₂ w₁ w₂ r : Value) (hk₁ : o₁.whollyKnown = true) (hk₂ : o₂.whollyKnown = true)
     (hf₁ : o₁.wfc = true) (hf₂ : o₂.wfc = true) (hg₁ : w₁.wfc = true) (hg₂ : w₂.wfc = true)
     (hc₁ : CoversX w₁ o₁ = true) (hc₂ : CoversX w₂ o₂ = true)
-    (hside : CornerExactSub w₁.unmark w₂.unmark o₁.unmark o₂.unmark = true)
+    (hside : CornerSafeSub w₁.unmark w₂.unmark o₁.unmark o₂.unmark = true)
     (ho : Value.sub o₁ o₂ = .ok r) : ∃ r', Value.sub w₁ w₂ = .ok r' ∧ Covers r' r = true := by
   unfold Value.sub at ho ⊢
   rw [binMarks_eq] at ho ⊢
   obtain ⟨r0, h0, rfl⟩ := res_map_ok ho
-  obtain ⟨r', h1, h2⟩ := subU_sound_partial o₁.unmark o₂.unmark w₁.unmark w₂.unmark r0
+  obtain ⟨r', h1, h2⟩ := subU_sound_safe o₁.unmark o₂.unmark w₁.unmark w₂.unmark r0
     (by rw [whollyKnown_unmark]; exact hk₁) (by rw [whollyKnown_unmark]; exact hk₂)
     (flat_unmark (wfc_flat hf₁)) (flat_unmark (wfc_flat hf₂)) (flat_unmark (wfc_flat hg₁)) (flat_unmark (wfc_flat hg₂))
     (by rw [coversX_unmark_left, coversX_unmark_right]; exact hc₁)
@@ -445,9 +495,18 @@ theorem sound_sub_partial (o₁ o₂ w₁ w₂ r : Value) (hk₁ : o₁.whollyKn
   by_cases ha : (o₁.isMarked || o₂.isMarked) = true <;> by_cases hb : (w₁.isMarked || w₂.isMarked) = true <;>
     simp_all [covers_withMarks_left, covers_withMarks_right]
 
+/-- The side condition in plain terms: it holds as soon as the two sums are rounded at
+the same precision (`max` of the operand precisions), and it is implied by the former
+"nothing is rounded" condition. -/
+theorem add_side_condition_cases :
+    (∀ u1 u2 x y : Num, max u1.prec u2.prec = max x.prec y.prec → Num.addSafe u1 u2 x y = true) ∧
+    (∀ w₁ w₂ o₁ o₂ : Value, CornerExactAdd w₁ w₂ o₁ o₂ = true → CornerSafeAdd w₁ w₂ o₁ o₂ = true) ∧
+    (∀ w₁ w₂ o₁ o₂ : Value, CornerExactSub w₁ w₂ o₁ o₂ = true → CornerSafeSub w₁ w₂ o₁ o₂ = true) :=
+  ⟨fun _ _ _ _ h => addSafe_of_prec_eq h, fun _ _ _ _ h => cornerSafeAdd_of_exact h, fun _ _ _ _ h => cornerSafeSub_of_exact h⟩
+
 /-- FALSE as stated since /repo 6d2fa5e (before, the zero exit was a pointer
 comparison that no value but the package value `cty.Zero` itself could take):
-Multiply under the side condition `CornerExactMul` alone.  The corner products of
+Multiply under the side condition `CohMul` alone.  The corner products of
 `numericRangeArithmetic` are calls of `Value.Multiply` on the BOUNDS; the bounds of
 a dynamically typed operand are unknown numbers, so such a corner is a short circuit
 of its own and now takes the zero exit when the other bound is a zero.  A nullable
@@ -461,7 +520,7 @@ def SoundMulCornerExact : Prop :=
   ∀ (o₁ o₂ w₁ w₂ r : Value), o₁.whollyKnown = true → o₂.whollyKnown = true →
     o₁.wfc = true → o₂.wfc = true → w₁.wfc = true → w₂.wfc = true →
     CoversX w₁ o₁ = true → CoversX w₂ o₂ = true →
-    CornerExactMul w₁.unmark w₂.unmark o₁.unmark o₂.unmark = true →
+    CohMul w₁.unmark w₂.unmark = true →
     Value.mul o₁ o₂ = .ok r → ∃ r', Value.mul w₁ w₂ = .ok r' ∧ Covers r' r = true
 
 /-- null of the dynamic pseudo-type times null number is an unknown (non-null) number;
@@ -471,8 +530,7 @@ theorem mul_null_zero_bounds_counterexample :
     Value.mul ⟨.dyn, .null⟩ ⟨.number, .unk (.num .u (some ⟨Num.ofInt 0, true⟩) (some ⟨Num.ofInt 0, true⟩))⟩ = .ok zeroVal ∧
     CoversX ⟨.number, .unk (.num .u (some ⟨Num.ofInt 0, true⟩) (some ⟨Num.ofInt 0, true⟩))⟩ ⟨.number, .null⟩ = true ∧
     Covers zeroVal unkNumNotNull = false ∧
-    CornerExactMul ⟨.dyn, .null⟩ ⟨.number, .unk (.num .u (some ⟨Num.ofInt 0, true⟩) (some ⟨Num.ofInt 0, true⟩))⟩
-      ⟨.dyn, .null⟩ ⟨.number, .null⟩ = true ∧
+    CohMul ⟨.dyn, .null⟩ ⟨.number, .unk (.num .u (some ⟨Num.ofInt 0, true⟩) (some ⟨Num.ofInt 0, true⟩))⟩ = true ∧
     ZeroBoundsNumber ⟨.number, .unk (.num .u (some ⟨Num.ofInt 0, true⟩) (some ⟨Num.ofInt 0, true⟩))⟩ ⟨.number, .null⟩ = false :=
   ⟨by rfl, by rfl, by decide, by decide, by decide, by decide⟩
 
@@ -486,26 +544,32 @@ theorem soundMulCornerExact_false : ¬ SoundMulCornerExact := by
   rw [c4] at h2
   cases h2
 
-/-- Multiply: sound when both weakened operands have finite bounds on both sides
-and no corner product exceeds the 512 bits cty multiplies at (`CornerExactMul`,
-decidable), and a weakened operand whose two bounds are zeros stands for a number,
-not for a null (`ZeroBoundsNumber`, decidable; it only bites next to an operand of
-the dynamic pseudo-type, every other call on a null panics).  Multiply keeps every
-bit the product needs, so unlike Add the bounds' own precision cannot spoil the
-result; unbounded sides (corners at ±∞) are not covered by this theorem.  Both the
-zero exit of the call itself and the zero exit of its corner products (/repo
-6d2fa5e) are covered: a known zero, or an unknown confined to `[0, 0]`, times an
-operand that multiplies without a panic is a zero. -/
+/-- Multiply is sound for every weakening — unrefined, half-bounded or two-sided
+unknowns, `DynamicVal`, products that are rounded or not — under two decidable side
+conditions that exclude exactly what is known to be false or unknown:
+`ZeroBoundsNumber` (a weakened operand whose two bounds are zeros stands for a number,
+not for a null; it only bites next to an operand of the dynamic pseudo-type, see
+`mul_null_zero_bounds_counterexample`) and `CohMul` (a result range that cty collapses
+to a known number because its two ends are `rawNumberEqual` is one value; always so
+when the ends are integers).  Why no precision condition is needed, unlike Add: cty
+multiplies at 512 bits whatever the operands' precisions are and keeps every bit of
+that product, so corner products and the concrete product are rounded at the same
+precision, and rounding to nearest is monotone (`Num.rndV_mono`).  Infinite bounds:
+the product over a box of extended numbers lies between the smallest and the largest
+corner product whenever those are defined (`D01.Ext.box_lower/box_upper`; an
+undefined corner `0·∞` panics in Go, is caught, and makes the result unbounded).
+Both the zero exit of the call itself and the zero exit of its corner products
+(/repo 6d2fa5e) are covered. -/
 theorem sound_mul_partial (o₁ o₂ w₁ w₂ r : Value) (hk₁ : o₁.whollyKnown = true) (hk₂ : o₂.whollyKnown = true)
     (hf₁ : o₁.wfc = true) (hf₂ : o₂.wfc = true) (hg₁ : w₁.wfc = true) (hg₂ : w₂.wfc = true)
     (hc₁ : CoversX w₁ o₁ = true) (hc₂ : CoversX w₂ o₂ = true)
-    (hside : CornerExactMul w₁.unmark w₂.unmark o₁.unmark o₂.unmark = true)
+    (hside : CohMul w₁.unmark w₂.unmark = true)
     (hzb₁ : ZeroBoundsNumber w₁.unmark o₁.unmark = true) (hzb₂ : ZeroBoundsNumber w₂.unmark o₂.unmark = true)
     (ho : Value.mul o₁ o₂ = .ok r) : ∃ r', Value.mul w₁ w₂ = .ok r' ∧ Covers r' r = true := by
   unfold Value.mul at ho ⊢
   rw [binMarks_eq] at ho ⊢
   obtain ⟨r0, h0, rfl⟩ := res_map_ok ho
-  obtain ⟨r', h1, h2⟩ := mulU_sound_partial o₁.unmark o₂.unmark w₁.unmark w₂.unmark r0
+  obtain ⟨r', h1, h2⟩ := mulU_sound_coh o₁.unmark o₂.unmark w₁.unmark w₂.unmark r0
     (by rw [whollyKnown_unmark]; exact hk₁) (by rw [whollyKnown_unmark]; exact hk₂)
     (flat_unmark (wfc_flat hf₁)) (flat_unmark (wfc_flat hf₂)) (flat_unmark (wfc_flat hg₁)) (flat_unmark (wfc_flat hg₂))
     (by rw [coversX_unmark_left, coversX_unmark_right]; exact hc₁)
@@ -518,6 +582,25 @@ theorem sound_mul_partial (o₁ o₂ w₁ w₂ r : Value) (hk₁ : o₁.whollyKn
 holds of every weakening of a number. -/
 theorem zeroBoundsNumber_of_number (w : Value) (x : Num) : ZeroBoundsNumber w (numVal x) = true := by
   simp [ZeroBoundsNumber, numVal, asNum]
+
+/-- The base case of the property's quantifier — an UNREFINED unknown number (also
+`UnknownVal(Number).RefineNotNull()`, and `DynamicVal`) in place of a number, times a
+known number: sound with no side condition.  (The result is the unrefined not-null
+unknown number, or `cty.Zero` when the known factor is a zero.) -/
+theorem sound_mul_unrefined (x y : Num) (w₁ r : Value)
+    (hw : w₁ = ⟨.number, .unk .unref⟩ ∨ w₁ = ⟨.number, .unk (.nullable .f)⟩ ∨ w₁ = dynVal)
+    (ho : Value.mul (numVal x) (numVal y) = .ok r) :
+    ∃ r', Value.mul w₁ (numVal y) = .ok r' ∧ Covers r' r = true := by
+  have hc₂ : CoversX (numVal y) (numVal y) = true := by
+    simp [CoversX, CoversG, numVal, Ty.matches, Payload.stripMarks, Cov.coversP, Cov.numEq]
+  have hwf : ∀ z : Num, (numVal z).wfc = true := fun z => rfl
+  rcases hw with rfl | rfl | rfl
+  · exact sound_mul_partial (numVal x) (numVal y) _ (numVal y) r rfl rfl (hwf x) (hwf y) (by decide) (hwf y) (by rfl) hc₂
+      (cohMul_of_unbounded (by rfl)) (zeroBoundsNumber_of_number _ x) (zeroBoundsNumber_of_number _ y) ho
+  · exact sound_mul_partial (numVal x) (numVal y) _ (numVal y) r rfl rfl (hwf x) (hwf y) (by decide) (hwf y) (by rfl) hc₂
+      (cohMul_of_unbounded (by rfl)) (zeroBoundsNumber_of_number _ x) (zeroBoundsNumber_of_number _ y) ho
+  · exact sound_mul_partial (numVal x) (numVal y) _ (numVal y) r rfl rfl (hwf x) (hwf y) (by decide) (hwf y) (by rfl) hc₂
+      (by rfl) (zeroBoundsNumber_of_number _ x) (zeroBoundsNumber_of_number _ y) ho
 
 /-- Multiply with a KNOWN ZERO among the weakened operands needs no side condition:
 since /repo 6d2fa5e the short circuit answers `cty.Zero` for every zero operand
@@ -568,11 +651,22 @@ example : CoversX ⟨.list .number, .seq [.unk (.num .f (some ⟨Num.ofInt 1, fa
 example : EqOperand ⟨.tuple [.number, .list .bool], .seq [.n (Num.ofInt 3), .seq [.b true]]⟩ := ⟨by decide, by decide⟩
 example : (⟨.list .number, .seq [.n (Num.ofInt 2)]⟩ : Value).wfc = true := by decide
 /-- the side condition of `sound_add_partial` holds for ordinary bounds: unknown in [1, 5] plus 2 -/
-example : CornerExactAdd ⟨.number, .unk (.num .f (some ⟨Num.ofInt 1, true⟩) (some ⟨Num.ofInt 5, false⟩))⟩ (intVal 2)
+example : CornerSafeAdd ⟨.number, .unk (.num .f (some ⟨Num.ofInt 1, true⟩) (some ⟨Num.ofInt 5, false⟩))⟩ (intVal 2)
     (intVal 3) (intVal 2) = true := by decide
-/-- … and of `sound_mul_partial`: unknown in [-3, 5] times unknown in [2, 4], standing for -1 · 3 -/
-example : CornerExactMul ⟨.number, .unk (.num .f (some ⟨Num.ofInt (-3), true⟩) (some ⟨Num.ofInt 5, true⟩))⟩
-    ⟨.number, .unk (.num .f (some ⟨Num.ofInt 2, true⟩) (some ⟨Num.ofInt 4, false⟩))⟩ (intVal (-1)) (intVal 3) = true := by decide
+/-- … and for sums that ARE rounded, all at one precision: unknown ≥ 0.1₅₃ standing for 0.1₅₃, plus 0.5₅₃
+(the former side condition `CornerExactAdd` fails here: audit C01 item 2) -/
+example : CornerSafeAdd ⟨.number, .unk (.num .f (some ⟨.fin false 3602879701896397 (-55) 53, true⟩) none)⟩
+      ⟨.number, .n (.fin false 1 (-1) 53)⟩ ⟨.number, .n (.fin false 3602879701896397 (-55) 53)⟩ ⟨.number, .n (.fin false 1 (-1) 53)⟩ = true ∧
+    CornerExactAdd ⟨.number, .unk (.num .f (some ⟨.fin false 3602879701896397 (-55) 53, true⟩) none)⟩
+      ⟨.number, .n (.fin false 1 (-1) 53)⟩ ⟨.number, .n (.fin false 3602879701896397 (-55) 53)⟩ ⟨.number, .n (.fin false 1 (-1) 53)⟩ = false := by
+  decide
+/-- … and of `sound_mul_partial`: unknown in [-3, 5] times unknown in [2, 4]; unknown ≥ 1 times 2; an unrefined
+unknown times 2 (where the former side condition `CornerExactMul` fails: audit C01 item 1) -/
+example : CohMul ⟨.number, .unk (.num .f (some ⟨Num.ofInt (-3), true⟩) (some ⟨Num.ofInt 5, true⟩))⟩
+      ⟨.number, .unk (.num .f (some ⟨Num.ofInt 2, true⟩) (some ⟨Num.ofInt 4, false⟩))⟩ = true ∧
+    CohMul ⟨.number, .unk (.num .u (some ⟨Num.ofInt 1, true⟩) none)⟩ (intVal 2) = true ∧
+    CohMul ⟨.number, .unk .unref⟩ (intVal 2) = true ∧
+    CornerExactMul ⟨.number, .unk .unref⟩ (intVal 2) (intVal 3) (intVal 2) = false := by decide
 /-- … with its second side condition (an unknown in [0, 0] standing for the zero it must be) -/
 example : ZeroBoundsNumber ⟨.number, .unk (.num .u (some ⟨Num.ofInt 0, true⟩) (some ⟨Num.ofInt 0, true⟩))⟩ (intVal 0) = true ∧
     zeroBounded ⟨.number, .unk (.num .u (some ⟨Num.ofInt 0, true⟩) (some ⟨Num.ofInt 0, true⟩))⟩ = true := by decide
